@@ -21,7 +21,16 @@ Check(e) ==
        THEN Fail(e, "timestamps-not-strictly-increasing", <<>>) ELSE TRUE
     /\ IF ~TotalPreserved(v, out) THEN Fail(e, "total-not-preserved", <<SumV(v, DOMAIN v), SumV(out, DOMAIN out)>>) ELSE TRUE
     /\ IF ~Admissible(zone, v, out) THEN Fail(e, "values-not-at-local-time-minus-offset", <<"zone", e.name, "utc", out>>) ELSE TRUE
-Step == i < N /\ i' = i + 1 /\ Check(Events[i + 1])
+(* usage patterns of different zones feeding the same job are combined on the common UTC time line: the job's series across *)
+(* usage patterns is, instant by instant, the sum of the patterns' UTC series (an instant missing in one counts as zero)      *)
+CheckCombine(e) ==
+    LET a == Ser(e.utc1_t, e.utc1_v)
+        b == Ser(e.utc2_t, e.utc2_v)
+        c == Ser(e.sum_t, e.sum_v)
+        At(s, x) == IF x \in DOMAIN s THEN s[x] ELSE 0
+        bad == {x \in DOMAIN a \cup DOMAIN b \cup DOMAIN c : At(c, x) # At(a, x) + At(b, x)}
+    IN  IF bad # {} THEN Fail(e, "patterns-not-combined-instant-by-instant", <<e.name, bad>>) ELSE TRUE
+Step == i < N /\ i' = i + 1 /\ (IF Events[i + 1].ev = "Combine" THEN CheckCombine(Events[i + 1]) ELSE Check(Events[i + 1]))
 Init == i = 0
 Next == Step
 Spec == Init /\ [][Next]_vars
